@@ -41,7 +41,7 @@ func init() {
 		Technique: "exhaustive single-position substitution of hostile markers into every string leaf of a maximal configuration tree (file start-up path and real dashboard handlers) and into chain data, each variant executed through the real pipeline against the fake Postgres; oracle = marker search over every SQL text received",
 		Rule: "maximal configuration (3 sources, 3 integrations: log with user unique/index/notification, log with nested tuple components carrying column/filter/filter_ref, trace on a shared table); every string leaf (incl. strings in arrays) x 9 markers (' \" ; ) ( -- $$ \\ .) as the whole value, and with the metacharacter as FIRST character, as LAST character and alone on identifier-like leaves [thorough: on all leaves, plus suffix/prefix of the benign value]; every substitution inside an integration also with that integration enabled:false; dashboard documents that carry the member of an identifier-like leaf TWICE (canonical key and a Capitalised / UPPER case variant, hostile value in either, either order: 8 variants) followed by the reload of the stored row (Restart -> config.Integrations -> tasks); unique/index entries additionally as \"<column> <marker>\" and \"<column> desc <marker>\" (only ASC/DESC may follow the single space); " +
 			"FILE: decode -> ValidateFix -> Schema+Migrate -> loadTasks -> 5 rounds of one Converge per task with a reorg of block 2 -> PruneTask; DASHBOARD: every string leaf of each integration as submitted to web.Handler.SaveIntegration (others pre-stored) and every form value of SaveSource -> Manager.Restart -> runner threads to stop=3 with the same reorg; " +
-			"CHAIN: 11 chain-data positions x (9 markers + 3 injection strings such as `x'); delete …; --`) on the benign configuration, whose notifications cover byte, numeric and string-valued columns (ABI string input, trace call type); a marker in the TEXT of any statement sent is the violation, whether or not the fake can execute the statement. A case is non-trivial when the variant was rejected by validation or accepted and executed; distinct = distinct (mode, position, marker, form).",
+			"HISTORY: a sources-only configuration file (zero integrations) with every source string leaf substituted is the start-up file, the integrations referencing those sources are submitted / already stored, then Restart -> loadTasks -> NewTask; CHAIN: 11 chain-data positions x (9 markers + 3 injection strings such as `x'); delete …; --`) on the benign configuration, whose notifications cover byte, numeric and string-valued columns (ABI string input, trace call type); a marker in the TEXT of any statement sent is the violation, whether or not the fake can execute the statement. A case is non-trivial when the variant was rejected by validation or accepted and executed; distinct = distinct (mode, position, marker, form).",
 		Assumptions: []string{
 			"fake Postgres (h/simpg) records every simple-Query and Parse text; values travelling as Bind parameters or COPY data are not SQL text",
 			"a space is not a hostile character (documented \"col DESC\" index syntax); '.' is (schema qualification)",
@@ -133,6 +133,21 @@ func c15Jobs(thorough bool) ([]c15Case, error) {
 					if (f == 0 || (thorough && f == 5)) && (thorough || c15IdentifierLike(l.Path)) {
 						jobs = append(jobs, c15Case{Mode: "dash-ig", IG: k, Path: l.Path, Marker: m, Form: f, Disabled: true})
 					}
+				}
+			}
+		}
+	}
+	// HISTORY: a sources-only configuration FILE (no integrations) with a hostile string at a source position is
+	// the start-up configuration; the integrations that reference those sources arrive through the dashboard /
+	// are already stored; then Restart -> loadTasks -> NewTask
+	{
+		so := M{"eth_sources": c15Base()["eth_sources"]}
+		var sls []leaf
+		stringLeaves(so, nil, &sls)
+		for _, l := range sls {
+			for m := range c15Markers {
+				for _, f := range formsFor(l.Path, l.Val) {
+					jobs = append(jobs, c15Case{Mode: "dash-srcfile", Path: l.Path, Marker: m, Form: f})
 				}
 			}
 		}
@@ -306,6 +321,38 @@ func c15ExecOne(k c15Case, probe bool) (res c15Res, pos string, variant string) 
 			return c15Res{outcome: "exit:env-placeholder"}, pos, variant
 		}
 		return c15DashExec(dashReq{Kind: "integration", IG: k.IG, Body: toJSON(tree), Probe: probe}, benignChains(), needles), pos, variant
+	case "dash-srcfile":
+		if err := c15PrepareBenign(); err != nil {
+			return c15Res{harness: err.Error()}, "", ""
+		}
+		tree := cloneTree(c15Base()).(map[string]any)
+		tree["integrations"] = L{}
+		old, ok := getAt(tree, k.Path)
+		s, isStr := old.(string)
+		if !ok || !isStr {
+			return c15Res{harness: fmt.Sprintf("no string leaf at %v", k.Path)}, "", ""
+		}
+		v := c15Variant(s, k.Marker, k.Form)
+		setAt(tree, k.Path, v)
+		pc := posClass(k.Path)
+		pos, variant = "sources-only-file:"+pc, fmt.Sprintf("configuration FILE without integrations and %s = %s (was %q); a_refd (referencing that source) submitted through /save-integration, the other integrations already stored; then Restart", strings.Join(k.Path, "."), toJSON(v), s)
+		if strings.HasPrefix(v, "$") {
+			return c15Res{outcome: "exit:env-placeholder"}, pos, variant
+		}
+		rq := dashReq{Kind: "integration", IG: 0, FileConf: toJSON(tree), Probe: probe}
+		body := toJSON(c15Benign.igTrees[0])
+		if pc == "source.name" {
+			rq.RenameSrc = [2]string{s, v}
+			bt := cloneTree(c15Benign.igTrees[0]).(map[string]any)
+			for _, r := range bt["sources"].([]any) {
+				if r.(map[string]any)["name"] == s {
+					r.(map[string]any)["name"] = v
+				}
+			}
+			body = toJSON(bt)
+		}
+		rq.Body = body
+		return c15DashExec(rq, benignChains(), needles), pos, variant
 	case "dash-dup":
 		if err := c15PrepareBenign(); err != nil {
 			return c15Res{harness: err.Error()}, "", ""
@@ -339,7 +386,7 @@ func c15ExecOne(k c15Case, probe bool) (res c15Res, pos string, variant string) 
 
 func modeTag(mode string) string {
 	switch mode {
-	case "dash-ig", "dash-src", "dash-linked", "dash-dup":
+	case "dash-ig", "dash-src", "dash-linked", "dash-dup", "dash-srcfile":
 		return "dashboard"
 	case "file-linked":
 		return "file"
